@@ -1,3 +1,4 @@
+import HotstuffModel.Generated.Switches
 /-
 Model of `mempool::batch_maker::BatchMaker` (/repo/mempool/src/batch_maker.rs), of the batch path
 of `mempool::processor::Processor` (processor.rs) and of `MempoolReceiverHandler::dispatch`
@@ -26,7 +27,7 @@ namespace HS.BM
 
 /-- The filter in `seal` of the current /repo tests `tx[0]` before the length.  Flip to `true`
 when the `fix:` commit swaps the two tests. -/
-def codeLenFirst : Bool := false
+def codeLenFirst : Bool := Gen.batchSampleLenFirst
 
 instance {ε α : Type} [DecidableEq ε] [DecidableEq α] : DecidableEq (Except ε α)
   | .ok a, .ok b => if h : a = b then isTrue (by rw [h]) else isFalse (by intro e; cases e; exact h rfl)
